@@ -399,6 +399,15 @@ def stepCred (j : Json) : String :=
     | .panic s => "panic:" ++ siteFn s
   s!"subj={shw (Cred.resolveSubjectDID c vp.subjects)} signer={shw (Cred.presentationSigner c vp)} presenter={pres}"
 
+def stepJwx (j : Json) : String :=
+  let c := Sites.jwxCfg
+  let i (verify : String) : Jwx.In :=
+    { parseOk := jBool j "parseOk", nSigs := jNat j "nSigs", keyOk := jBool j "keyOk", algSupported := jBool j "algSupported",
+      algFitsKey := jBool j "algFitsKey", verifyOk := jBool j verify }
+  let shw : Res Unit → String := fun r => match r with
+    | .ok _ => "ok" | .err e => "err:" ++ e | .panic s => "panic:" ++ siteFn s
+  s!"kidalg={shw (Jwx.jwtKidAlg c (i "verifyJWT"))} jwt={shw (Jwx.parseJWT c (i "verifyJWT"))} jws={shw (Jwx.parseJWS c (i "verifyJWS"))}"
+
 def libOf (s : String) : DidWeb.Lib := if s == "ok" then .ok else if s == "panic" then .panic else .err
 
 def stepDidnutsCallback (j : Json) : String :=
@@ -434,6 +443,7 @@ def step (st : Unit) (j : Json) : Unit × List String :=
   | "didnuts.callback" => (st, [stepDidnutsCallback j])
   | "httpcache.seq" => (st, [stepHttpCache j])
   | "cred.presenter" => (st, [stepCred j])
+  | "jwx.parse" => (st, [stepJwx j])
   | "didweb.pct" => (st, [stepDidwebPct j])
   | "didweb.unescape" => (st, [stepDidwebUnescape j])
   | "didweb.url" => (st, [stepDidwebUrl j])
